@@ -19,8 +19,58 @@ func init() {
 
 var rewrittenFields = map[string]bool{"TTL": true, "HopLimit": true, "Checksum": true, "TOS": true, "TrafficClass": true, "Options": true, "Padding": true}
 
+// checkFixedFrameOffsets is R02.9: on the inbound parse path of package packets no byte slice is read at a constant offset of 20
+// or more. Everything past the first 20 bytes of a frame sits behind a variable-length header (IPv4 IHL / options, IPv6 extension
+// headers, TCP options): a fixed offset reads the right byte only for the shortest header, so a genuine reply that carries outer
+// IP options would be mis-classified. The layer decoders compute these offsets; hand-written peeks may use them only below 20.
+func checkFixedFrameOffsets(c *Ctx) {
+	R := c.R
+	var roots []*ssa.Function
+	for _, n := range []string{"(*packets.FrameParser).Parse", "packets.ReadAndParse", "(*packets.FrameParser).GetICMPInfo", "packets.ParseTCPFirstBytes", "packets.ParseUDPFirstBytes"} {
+		if f := c.P.Func(n); f != nil {
+			roots = append(roots, f)
+		}
+	}
+	n := 0
+	for _, f := range ModReach(c.P, roots...) {
+		if core.ShortPkg(core.FuncPkg(f)) != "packets" {
+			continue
+		}
+		fn := core.FuncName(f)
+		for _, b := range f.Blocks {
+			for _, in := range b.Instrs {
+				var idx ssa.Value
+				var base ssa.Value
+				switch x := in.(type) {
+				case *ssa.IndexAddr:
+					idx, base = x.Index, x.X
+				case *ssa.Slice:
+					idx, base = x.Low, x.X
+				}
+				if idx == nil || base == nil {
+					continue
+				}
+				sl, ok := base.Type().Underlying().(*types.Slice)
+				if !ok {
+					continue
+				}
+				if bt, ok := sl.Elem().Underlying().(*types.Basic); !ok || bt.Kind() != types.Uint8 {
+					continue
+				}
+				n++
+				if k, ok := idx.(*ssa.Const); ok && k.Value != nil && k.Int64() >= 20 {
+					R.Fail("R02.9", fmt.Sprintf("%s#fixed-offset[%d]", fn, k.Int64()), in.Pos(), fn, fmt.Sprintf("a byte slice is read at the fixed offset %d on the parse path: everything past byte 20 of a frame sits behind a variable-length header (IP options, extension headers), so this reads the intended field only for the shortest header; a genuine reply with outer IP options would be mis-read", k.Int64()))
+				}
+			}
+		}
+	}
+	R.OK("R02.9", "packets#fixed-offsets", 0, "packets", fmt.Sprintf("%d byte-slice reads on the parse path, none at a constant offset >= 20", n))
+	R.Floor("R02.9:byte-slice-reads", n, 5)
+}
+
 func runC02(c *Ctx) {
 	R := c.R
+	checkFixedFrameOffsets(c)
 	denied := deniedICMPInfoFields(c)
 	forEachMatcher(c, "R02", func(m *matcherCtx) {
 		forms := map[string]bool{}
